@@ -1,3 +1,4 @@
 pub mod bus;
+pub mod irq;
 pub mod mbc;
 pub mod sm83;
